@@ -1,6 +1,6 @@
 (* Proofs about the extract_abbreviation model (C11). *)
 From Coq Require Import ZArith List Bool Lia ZifyBool.
-From Emmet Require Import lib.Base model.Extract.
+From Emmet Require Import lib.Base lib.ExtractLib model.Extract.
 Import ListNotations.
 
 (* The hard-coded character constants of the model agree with the tables
@@ -188,9 +188,6 @@ Lemma clamp_pos_Z : forall line pos,
   | Some z => Z.min (Z.of_nat (length line)) (Z.max 0 z)
   end.
 Proof. intros line [z|]; cbn [clamp_pos]; lia. Qed.
-
-(* the four dangling operators, as the property names them *)
-Definition dangling (c : char) : Prop := In c [c_gt; c_plus; c_caret; c_star].
 
 Lemma is_trim_dangling : forall c, is_trim c = false -> ~ dangling c.
 Proof.
